@@ -5,7 +5,9 @@ namespace Driver
 open Ipfix
 
 def parseMode : String → Option Mode
-  | "strict" => some .strict | "keep" => some .keep | "drop" => some .drop | _ => none
+  | "strict" => some .strict | "keep" => some .keep | "drop" => some .drop
+  | "default" => some .strict   -- CollectorInput.DecodingMode left unset: "Defaults to DecodingModeStrict" (its documentation)
+  | _ => none
 
 def iesToken (ies : List IE) : String := joinOr "," (ies.map ieToken)
 
